@@ -35,7 +35,7 @@ def every_user_looks(sess, desc):
 
 def main(run):
     quick = run.tier == 'quick'
-    rc.design(run, ['mixed', 'shared'] if quick else ['plain', 'same', 'shared', 'indep', 'mixed'],
+    rc.design(run, ['mixed', 'shared'] if quick else ['plain', 'same', 'shared', 'indep', 'mixed', 'chain'],
               mutants=['noRefuse', 'keepReadableOnly'] if quick else ['noRefuse', 'keepReadableOnly', 'noSnapTag', 'noChunkTag'],
               coverage=not quick)
     rc.l2(run, ['mixed', 'shared', 'indep'] if quick else ['same', 'shared', 'indep', 'mixed'],
@@ -44,6 +44,8 @@ def main(run):
     n = 3 if quick else 30
     traces = rc.histories(run, ['same', 'shared', 'clone', 'indep', 'mixed'], range(run.seed * 100, run.seed * 100 + n), 12 if quick else 25,
                           post=every_user_looks)
+    # chains of add-key: shared-of-shared, clone of an independent key
+    traces += rc.histories(run, ['chain'], range(run.seed * 100 + 60, run.seed * 100 + 60 + (2 if quick else 20)), 14 if quick else 30, post=every_user_looks)
     rc.validate(run, traces, CLAUSES, label='c06.histories')
     run.coverage['rule'] = ('a case is one command history on a key graph (same / shared / clone / independent / mixed) followed by every '
                             'user listing, restoring, deleting foreign snapshots, cleaning, and the unlock matrix; or one replayed TLC behaviour')
